@@ -269,7 +269,7 @@ def manifest_listing(root):
     return {h: set(f for _, f in impl.list_manifests(h)) for h in histories_below(root)}
 
 
-def run_impl(scn, scratch, keep=False):
+def run_impl(scn, scratch, keep=False, snap=False):
     """-> (list of observations, root path).  One observation per step (edits give {'edit': op})"""
     base = scratch.new("s")
     root = os.path.join(base, scn.get("root_name", "r"))
@@ -292,8 +292,14 @@ def run_impl(scn, scratch, keep=False):
             st["pl_path"] = st.get("pl_path") or _latest_packing_list(aux)
         before = manifest_listing(root)
         cmd, argv = cli_args(root, st, aux)
+        snap0 = (impl.snapshot(root), impl.snapshot(aux)) if snap else None
         outcome, out = impl.run_cli(cmd, argv)
         after = manifest_listing(root)
+        fs_changed = None
+        if snap:
+            snap1 = (impl.snapshot(root), impl.snapshot(aux))
+            fs_changed = sorted(k for k in set(snap0[0]) | set(snap1[0]) if snap0[0].get(k) != snap1[0].get(k))
+            aux_changed = sorted(k for k in set(snap0[1]) | set(snap1[1]) if snap0[1].get(k) != snap1[1].get(k))
         written, raw = [], []
         for h in sorted(after):
             for f in sorted(after[h] - before.get(h, set())):
@@ -305,6 +311,8 @@ def run_impl(scn, scratch, keep=False):
                 raw.append((h, f, man))
         missing, mismatch, new = parse_output(out)
         o = {"op": st["op"], "outcome": list(outcome), "written": written, "missing": missing, "mismatch": mismatch, "new": new, "output": out, "_raw": raw, "_argv": argv}
+        if snap:
+            o["_fs_changed"], o["_aux_changed"] = fs_changed, aux_changed
         if st["op"] in ("info", "infosf"):
             o["info"] = parse_info(out, os.path.join(root, st.get("root") or "") if st["op"] == "info" or st.get("root") is not None else _nearest(root, st["file"]))
         if st["op"] == "verifydh":
@@ -543,7 +551,8 @@ def comparable(o, op, st=None):
         c["mismatch"] = sorted(o["mismatch"])
         c["new"] = sorted(o["new"])
     if op in ("info", "infosf"):
-        c["info"] = o.get("info")
+        # a refused info has already printed its header line when the loader raises; the model's refusal carries no lines
+        c["info"] = None if o["outcome"] in (["exit", 31], ["exit", 32], ["exit", 33]) else o.get("info")
     if op == "verifydh" and st.get("co"):
         c["dh"] = sorted(x for x in o.get("dh", []) if not st.get("ro") or x[0] == "")
     if op == "flatten":
